@@ -177,6 +177,8 @@ func (it *Interp) Apply(op *Op) {
 		it.opRemoveEntity(op)
 	case "bulk":
 		it.opBulk(op)
+	case "obsBad":
+		it.opObsBad(op)
 	case "addBatch", "removeBatch", "exchangeBatch":
 		it.opExchangeBatch(op)
 	case "setRelBatch":
@@ -586,7 +588,7 @@ func (it *Interp) openKept(b *Backend, a *Op, sel []int) {
 }
 
 func (it *Interp) execNewBatch(b *Backend, op *Op, list []int, first int) {
-	if b.Pol.ExpandBatches {
+	if b.Pol.ExpandBatches && op.N > 0 { // (a batch of zero entities has no per-entity expansion)
 		for k := 0; k < op.N; k++ {
 			var h ecs.Entity
 			if op.P == PWorld {
@@ -1486,11 +1488,11 @@ func (b *Backend) buildFilter(fs *FilterSpec) Filter {
 		if fs.Order == 3 {
 			// "can be called multiple times in chains, or once with multiple arguments"
 			for _, c := range fs.With {
-				f.With(compsOf([]int{c}))
+				useComps([]int{c}, f.With)
 			}
 			return
 		}
-		f.With(compsOf(fs.With))
+		useComps(fs.With, f.With)
 	}
 	exclude := func() {
 		if fs.Exclusive {
@@ -1498,11 +1500,11 @@ func (b *Backend) buildFilter(fs *FilterSpec) Filter {
 		} else if len(fs.Without) > 0 {
 			if fs.Order == 3 {
 				for _, c := range fs.Without {
-					f.Without(compsOf([]int{c}))
+					useComps([]int{c}, f.Without)
 				}
 				return
 			}
-			f.Without(compsOf(fs.Without))
+			useComps(fs.Without, f.Without)
 		}
 	}
 	rels := func() {
@@ -1534,6 +1536,7 @@ func (b *Backend) buildFilter(fs *FilterSpec) Filter {
 		exclude()
 		rels()
 	}
+	flushScramble()
 	return f
 }
 
